@@ -1157,8 +1157,10 @@ def dot(first, second):
         return second[:, :] * first
     if isinstance(second, WireVector):
         return first[:, :] * second
-    if (first.rows == 1 and first.columns == 1) \
-            or (second.rows == 1 and second.columns == 1):
+    if first.rows == 1 and first.columns == 1:
+        # a 1x1 matrix indexes to a plain WireVector, which must be the right operand of Matrix.__mul__
+        return second[:, :] * first[:, :]
+    if second.rows == 1 and second.columns == 1:
         return first[:, :] * second[:, :]
 
     # Second case when it is Inner Product
